@@ -90,7 +90,8 @@ class FortranRegularExpressions:
         r"POINTER|TARGET|DIMENSION[ ]*\(|"
         r"OPTIONAL|INTENT[ ]*\([ ]*(?:IN|OUT|IN[ ]*OUT)[ ]*\)|DEFERRED|NOPASS|"
         r"PASS[ ]*\(\w*\)|SAVE|PARAMETER|EXTERNAL|"
-        r"CONTIGUOUS)",
+        r"CONTIGUOUS|VOLATILE|VALUE|PROTECTED|ASYNCHRONOUS|INTRINSIC|"
+        r"NON_OVERRIDABLE|BIND[ ]*\([^\)]*\))",
         I,
     )
     PARAMETER_VAL: Pattern = compile(r"\w*[\s\&]*=(([\s\&]*[\w\.\-\+\*\/\'\"])*)", I)
